@@ -29,7 +29,7 @@ import itertools
 import re
 
 KINDS = "PSCD"
-CTX_KINDS = "CD"
+CTX_KINDS = "CDX"  # X: a function whose only parameter is the context (possible for source tasks only)
 STATIC_KINDS = "SD"
 
 # menu of small workflows: list of (kind, preds as indexes into the menu workflow)
@@ -209,6 +209,8 @@ def next_ops(model, plan, depth):
     if "add" in plan["ops"] and room >= 1:
         for kind in plan["kinds"]:
             for form, ps in pred_choices(order, plan["max_preds"]):
+                if kind == "X" and (form != "none" or any(st and st[0] == "U" for st in model.static.values())):
+                    continue  # the function takes the context only (and only one of them)
                 ops.append(("add", kind, form, ps))
     if "add_sinks" in plan["ops"] and room >= 1:
         sinks = tuple(model.sinks())
@@ -245,7 +247,9 @@ def next_ops(model, plan, depth):
         # WorkflowBuilder(<the current workflow>, tasks=[new task]): same state as add_task(new) on a copy
         for kind in plan["kinds"]:
             ops.append(("ctor", kind))
-    if "ctx" in plan["ops"] and n:
+    # an explicit insert_context followed by execute_workflow(context=...) hands a task two contexts: fine for (context, *args),
+    # not callable for a function whose only parameter is the context
+    if "ctx" in plan["ops"] and n and not any(model.kind[t] == "X" for t in order):
         ops.append(("ctx",))
     return ops
 
@@ -312,7 +316,12 @@ class Env:
         from pharmpy.workflows import Task
 
         env = self
-        if kind in CTX_KINDS:
+        if kind == "X":
+            def fn(context):
+                targs = (env.tok(context),)
+                env.log.append((label, targs))
+                return (label, targs)
+        elif kind in CTX_KINDS:
             def fn(context, *args):
                 targs = (env.tok(context),) + tuple(env.tok(a) for a in args)
                 env.log.append((label, targs))
